@@ -8,6 +8,8 @@ package verifrt
 import (
 	"bytes"
 	"reflect"
+	"sync/atomic"
+	"time"
 )
 
 // Event kinds of the trace.
@@ -303,4 +305,62 @@ func sortStrings(a []string) {
 			a[j], a[j-1] = a[j-1], a[j]
 		}
 	}
+}
+
+// ---- waiting: the instrumenter routes time.Sleep / time.After / time.NewTimer / time.AfterFunc of the
+// instrumented packages through these.  Waited accumulates the durations ASKED for (a deterministic quantity,
+// unlike elapsed time); with VirtualTime on, the wait itself is skipped, so that a history in which waits grow
+// can be explored without spending the time.
+
+var (
+	VirtualTime atomic.Bool
+	waited      atomic.Int64
+)
+
+// Waited returns the total waiting asked for since the last ResetWaited.
+func Waited() time.Duration { return time.Duration(waited.Load()) }
+
+// ResetWaited sets the account to zero.
+func ResetWaited() { waited.Store(0) }
+
+func noteWait(d time.Duration) {
+	if d > 0 {
+		if waited.Add(int64(d)) < 0 { // saturate
+			waited.Store(1<<63 - 1)
+		}
+	}
+	if PointHook != nil {
+		PointHook(-1)
+	}
+}
+
+func Sleep(d time.Duration) {
+	noteWait(d)
+	if !VirtualTime.Load() {
+		time.Sleep(d)
+	}
+}
+
+func After(d time.Duration) <-chan time.Time {
+	noteWait(d)
+	if VirtualTime.Load() {
+		d = 0
+	}
+	return time.After(d)
+}
+
+func NewTimer(d time.Duration) *time.Timer {
+	noteWait(d)
+	if VirtualTime.Load() {
+		d = 0
+	}
+	return time.NewTimer(d)
+}
+
+func AfterFunc(d time.Duration, f func()) *time.Timer {
+	noteWait(d)
+	if VirtualTime.Load() {
+		d = 0
+	}
+	return time.AfterFunc(d, f)
 }
